@@ -29,6 +29,7 @@ EXPLANATION = (
     " (R14) every field-level builder that receives the checks of a component (series_strategy, index_strategy, multiindex_strategy) applies the fallback filter for vectorized checks without a registered strategy. " 
     " (R15) for constructors that store both, statistics[k] is the check argument k and never a lossy projection (.pattern of a compiled regex); (R16) the dataframe strategy lets the dataframe-level dtype override the column dtype, as validation does; (R17) a null mask is applied to a field only with its uniqueness taken into account (repeated nulls are duplicates). " 
     "NOT decided: that draws validate (hypothesis search + numpy/pandas dtype conversion)."
+    ' (R18) in the strategies package a lambda / nested def created in a for body reads a variable bound by that loop only through a parameter default (lazy strategies run it after the loop ended); (R19) the wrapper that maps positional arguments of a registered check onto statistic names and the decorator that records check.statistics use the same name sequence.'
 )
 LEVEL_RULE = "one obligation per (check strategy, path) / parameter / fallback site"
 FLOORS = {"R1": 14, "R2": 30, "R3": 14, "R4": 1, "R5": 3, "R6": 2, "R7": 3, "R8": 1, "R9": 1, "R10": 1, "R11": 10, "R12": 15, "R13": 1, "R14": 3, "R15": 4, "R16": 1, "R17": 4}
@@ -776,8 +777,87 @@ def r17_null_masks_respect_unique(ctx):
         raise AnalysisError(f"null mask applications found: {n}")
 
 
+def r18_loop_closures_bind_their_variables(ctx):
+    """Hypothesis strategies are lazy: a `lambda` handed to `.filter()` / `.map()` inside a loop over checks or index levels
+    runs long after the loop has finished.  A lambda that reads a loop variable as a free variable sees its *last* value -
+    every fallback filter then tests the last check on the last level, and examples violate the earlier ones.  Decided
+    (the classic cell-var-from-loop rule, for the strategies package): a lambda / nested def created in a `for` body
+    reads a variable bound by that loop only through a parameter default (`lambda df, level=level, check=check: ...`)."""
+    n = 0
+    for m in ctx.ix.modules.values():
+        if not m.path.startswith("pandera/strategies/"):
+            continue
+        for f in m.all_functions:
+            for lp in [x for x in walk_no_nested(f.node) if isinstance(x, ast.For)]:
+                bound = {x.id for x in ast.walk(lp.target) if isinstance(x, ast.Name)}
+                for st in lp.body:
+                    for a in ast.walk(st):
+                        if isinstance(a, ast.Assign):
+                            bound |= {t.id for t in a.targets if isinstance(t, ast.Name)}
+                for st in lp.body:
+                    for lam in ast.walk(st):
+                        if not isinstance(lam, (ast.Lambda, ast.FunctionDef)):
+                            continue
+                        args = lam.args
+                        params = {a.arg for a in args.posonlyargs + args.args + args.kwonlyargs} | ({args.vararg.arg} if args.vararg else set()) | \
+                            ({args.kwarg.arg} if args.kwarg else set())
+                        body = [lam.body] if isinstance(lam, ast.Lambda) else lam.body
+                        local = {t.id for b in body for x in ast.walk(b) if isinstance(x, ast.Assign) for t in x.targets if isinstance(t, ast.Name)}
+                        free = {x.id for b in body for x in ast.walk(b) if isinstance(x, ast.Name) and isinstance(x.ctx, ast.Load)} - params - local
+                        n += 1
+                        late = sorted(free & bound)
+                        ctx.touched(f)
+                        ctx.ob("R18", f, f"{f.short}: closure created in the loop over `{txt(lp.iter)[:30]}` binds the loop variables it reads", not late,
+                               "loop variables passed as defaults" if not late else
+                               f"`{txt(lam)[:70]}` reads {late} as free variables: the strategy evaluates it after the loop has ended, with the values of the last iteration - "
+                               "the fallback filter of every earlier check / level tests the last one, and drawn examples violate the earlier checks", f.loc(lam))
+    ctx.stats["loop_closures_in_strategies"] = n
+    if n < 2:
+        raise AnalysisError(f"strategies: closures created in loops found: {n}")
+
+
+def r19_positional_statistics_use_one_order(ctx):
+    """A registered check called positionally - `Check.in_span(100, 3)` - names its statistics twice: the wrapper that builds
+    the Check maps the positional values onto statistic names (`dict(zip(<names>, args))`), and the decorator that records
+    `check.statistics` (what the strategy draws from) is given a list of names.  Both have to use the *same* sequence -
+    the `statistics=[...]` list of the registration; if one of them re-orders the names (signature order) the check
+    function and the strategy receive swapped values and examples are drawn from the wrong span."""
+    from ..util import Expander
+    m = ctx.ix.module("pandera/api/extensions.py")
+    n = 0
+    for f in m.all_functions:
+        zips = [c for c in calls_in(f.node) if isinstance(c.func, ast.Name) and c.func.id == "zip" and len(c.args) == 2
+                and isinstance(c.args[1], ast.Name) and c.args[1].id == "args"]
+        if not zips:
+            continue
+        # the list given to the statistics-recording decorator of this method
+        g, recorded = f, None
+        while g is not None and recorded is None:
+            for d in getattr(g.node, "decorator_list", []):
+                if isinstance(d, ast.Call) and callee_last(d) == "register_check_statistics" and d.args:
+                    recorded = d.args[0]
+            g = getattr(g, "parent", None)
+        if recorded is None:
+            continue
+        ex = Expander(f.node)
+        for z in zips:
+            n += 1
+            ctx.touched(f)
+            a = z.args[0]
+            chain = [a] + list(ex.closure(a))
+            same = isinstance(a, ast.Name) and txt(a) == txt(recorded)
+            ctx.ob("R19", f, f"{f.short}: positional statistics are named in the order recorded for the strategy", same,
+                   f"both use `{txt(recorded)}`" if same else
+                   f"`{txt(z)[:50]}` names the positional values by `{txt(a)}` ({[txt(x)[:40] for x in chain[1:2]]}) while check.statistics is recorded from `{txt(recorded)}`: with "
+                   "statistics=['width', 'low'] and def f(obj, *, low, width) Check.f(100, 3) validates with one assignment and draws examples with the other", f.loc(z))
+    if n < 1:
+        raise AnalysisError("extensions.py: mapping of positional check arguments onto statistics not found")
+
+
 def run(ctx):
     r17_null_masks_respect_unique(ctx)
+    r18_loop_closures_bind_their_variables(ctx)
+    r19_positional_statistics_use_one_order(ctx)
     r15_statistics_are_the_check_arguments(ctx)
     r16_dataframe_dtype_wins(ctx)
     r13_series_index_generated(ctx)
